@@ -216,6 +216,11 @@ def run_case(case, seed):
         xs = [("x1", g.standard_normal(n)), ("X2", g.standard_normal((n, 2)))]
         if np.iscomplexobj(M):
             xs.append(("x1c", g.standard_normal(n) + 1j * g.standard_normal(n)))
+        if n >= 3:
+            # heterogeneous batch: an eigenvector (its Krylov space is exhausted after one step), a random column, a sum of two eigenvectors
+            w_, V_ = (np.linalg.eigh(M) if np.allclose(M, np.conj(M).T) else np.linalg.eig(M))
+            mix = np.stack([V_[:, 0], (g.standard_normal(n) + 0j), V_[:, 0] + 2 * V_[:, -1]], axis=1)
+            xs.append(("Xmix", mix if np.iscomplexobj(M) or np.max(np.abs(mix.imag)) > 1e-12 else mix.real))
         for tag, x in xs:
             ntr += 1
             want = F @ x
